@@ -11,6 +11,8 @@
 from __future__ import annotations
 
 import datetime
+import inspect
+import warnings
 import fractions
 import json
 import random
@@ -336,10 +338,124 @@ def _identity(f):
     return tuple(seen)
 
 
+def explicit_pairs(ck):
+    """Two hand-written rules for the same flow in different time units (same base name and group suffix, overlapping
+    validity) must agree by the documented factor.  Both real rules are executed on tied arguments: equal names share
+    a symbol, an argument that is a unit sibling of one of the other rule's arguments (or the other rule itself) is
+    that value times the factor (induction over the graph).  Every policy function of the tree is considered, at a
+    date inside the overlap of the two validity periods -- whatever the quick / thorough date list is."""
+    allf = gt.all_internal_functions()
+    fam = {}
+    for fn, f in allf.items():
+        if not gt.is_rule(f):
+            continue
+        info = getattr(f, "__info__", {}) or {}
+        n = info.get("name_in_dag", fn)
+        mt = PAT.fullmatch(n)
+        if mt:
+            fam.setdefault((mt.group("base"), mt.group("agg") or ""), []).append((n, mt.group("u"), f, info.get("start_date", datetime.date.min), info.get("end_date", datetime.date.max)))
+    n_pairs = 0
+    for key, members in sorted(fam.items()):
+        for i in range(len(members)):
+            for j in range(i + 1, len(members)):
+                a, b = members[i], members[j]
+                if a[1] == b[1]:
+                    continue               # same unit: successive versions of one rule
+                lo, hi = max(a[3], b[3]), min(a[4], b[4])
+                if lo > hi:
+                    continue
+                if b[0] in inspect.signature(a[2]).parameters:
+                    a, b = b, a            # the rule that consumes the other one is evaluated second
+                # the overlap's last day if it lies in the past, else 2022-01-01 or the first day of the overlap
+                date = hi if hi < datetime.date(2022, 1, 1) else max(lo, datetime.date(2022, 1, 1))
+                n_pairs += 1
+                _explicit_pair(ck, date, a[:3], b[:3])
+    ck.extra["explicit_unit_pairs"] = n_pairs
+
+
+def _explicit_pair(ck, date, a, b):
+    na, ua, fa = a
+    nb, ub, fb = b
+    fac_ba = FACT[ua] / FACT[ub]              # value per unit b = value per unit a * FACT[a] / FACT[b]
+    label = f"explicit {nb} == {na} * {fac_ba} @{date}"
+    try:
+        P, _ = gt.env(date)
+        kwa, sa = gt.rule_args(fa, P)
+        va, ctxa = R.run(fa, kwargs=kwa)
+        if va is None:
+            raise R.Unsupported(f"{na} raises on every path")
+        ta = R.term_of(va, float)
+        kwb, free = {}, []
+        for arg in inspect.signature(fb).parameters:
+            if arg.endswith("_params"):
+                kwb[arg] = P[arg[: -len("_params")]]
+            elif arg == na:
+                kwb[arg] = va
+            elif arg in sa:
+                kwb[arg] = sa[arg]
+            else:
+                mt = PAT.fullmatch(arg)
+                tied = None
+                if mt:
+                    for other, sym in sa.items():
+                        mo = PAT.fullmatch(other)
+                        if mo and mo.group("base") == mt.group("base") and (mo.group("agg") or "") == (mt.group("agg") or ""):
+                            tied = R.Sym(R.term_of(sym, float) * zfr(FACT[mo.group("u")] / FACT[mt.group("u")]), float)
+                if tied is None:
+                    ann = fb.__annotations__.get(arg)
+                    if ann not in (float, int, bool):
+                        raise R.Unsupported(f"argument {arg} of {nb}")
+                    tied = R.sym_for(arg, ann)
+                    free.append(arg)
+                kwb[arg] = tied
+        vb, ctxb = R.run(fb, kwargs=kwb)
+        if vb is None:
+            raise R.Unsupported(f"{nb} raises on every path")
+        tb = R.term_of(vb, float)
+    except (R.Unsupported, KeyError) as e:
+        ck.add_inconclusive(f"{label}: not encodable ({e})")
+        return
+    ck.functions |= ctxa.funcs | ctxb.funcs
+    errs = [g for g, k, w in list(ctxa.errors) + list(ctxb.errors)]
+    pre = list(ctxa.assumptions) + list(ctxb.assumptions) + ([z3.Not(z3.Or(errs))] if errs else [])
+    want = ta * zfr(fac_ba)
+    r, m = ck.oblige(label, pre + [zabs(tb - want) > zfr(REL) * zabs(want) + zfr(fractions.Fraction(1, 10 ** 9))], 60,
+                     sample={"rules": [na, nb], "date": str(date), "claim": f"{nb} = {na} x {fac_ba}", "free_arguments_of_the_second_rule": free})
+    ck.nontrivial.add(("explicit-pair", na, nb))
+    if r != "sat":
+        return
+    row = {k: R.model_value(m, s_) for k, s_ in sa.items()}
+    row.update({k: R.model_value(m, kwb[k]) for k in free})
+    rep = _replay_pair(date, na, nb, row, fac_ba)
+    what = f"{nb} and {na} are both hand-written rules at {date} but do not differ by the documented factor {float(fac_ba):.6g}: inputs {row} -> {rep}"
+    if rep.get("fails"):
+        ck.violation(["explicit-pair", na, nb], what, {"kind": "pair", "a": na, "b": nb, "date": str(date), "row": row, "fac": [fac_ba.numerator, fac_ba.denominator]})
+    elif free:
+        ck.add_inconclusive(f"{label}: model depends on untied arguments {free}")
+    else:
+        common.spurious("C13", what)
+
+
+def _replay_pair(date, na, nb, row, fac):
+    import pandas as pd
+    from gettsim import compute_taxes_and_transfers
+    P, F = gt.env(date)
+    df = pd.DataFrame({"p_id": [0], "hh_id": [0], **{k: [v] for k, v in row.items()}})
+    with warnings.catch_warnings():
+        warnings.simplefilter("ignore")
+        try:
+            out = compute_taxes_and_transfers(df, P, F, targets=[na, nb], rounding=False)
+        except Exception as e:   # noqa: BLE001
+            return {"raises": f"{type(e).__name__}: {e}"[:160], "fails": False}
+    a, b = float(out[na].iloc[0]), float(out[nb].iloc[0])
+    return {na: a, nb: b, "fails": abs(b - a * float(fac)) > 1e-9 + 1e-12 * abs(a * float(fac))}
+
+
 def run(tier):
     ck = common.Check("C13", tier)
     rnd = random.Random(common.SEED)
     converters(ck)
+    explicit_pairs(ck)
     dates = [datetime.date(2015, 1, 1), datetime.date(2023, 7, 1)] if tier == "quick" else \
         [datetime.date(1990, 1, 1), datetime.date(2005, 1, 1), datetime.date(2010, 1, 1), datetime.date(2015, 1, 1), datetime.date(2018, 1, 1),
          datetime.date(2021, 1, 1), datetime.date(2022, 10, 1), datetime.date(2023, 7, 1), datetime.date(2025, 1, 1)]
@@ -368,5 +484,9 @@ def replay(path):
         want = d["x"] * float(FACT[a] / FACT[b])
         print(real, want)
         return 1 if abs(real - want) > 1e-12 * abs(want) else 0
+    if d["kind"] == "pair":
+        rep = _replay_pair(datetime.date.fromisoformat(d["date"]), d["a"], d["b"], d["row"], fractions.Fraction(*d["fac"]))
+        print(rep)
+        return 1 if rep.get("fails") else 0
     print("re-run the check for kind", d["kind"])
     return 0
